@@ -477,3 +477,37 @@ Proof.
   destruct (number_loop_contig_wrap thumb files startNr _ startNr dsd [] segs dsd' e ltac:(lia) ltac:(lia) ltac:(lia) ltac:(tauto) I E) as [Hc|Hlt];
     [exact Hc|lia].
 Qed.
+
+(** * ConstantSampleDuration is non-zero exactly when all segments share one common sample duration *)
+
+Lemma csd_fold_cases : forall l c, 0 <= c ->
+  (csd_fold l c = c /\ Forall (fun s => c_csd s = c) l) \/ csd_fold l c = 0.
+Proof.
+  induction l as [|s l IH]; intros c Hc; cbn [csd_fold].
+  - left. split; [reflexivity|constructor].
+  - destruct (c <? 0) eqn:E; [lia|]. destruct (c =? c_csd s) eqn:E2; [|right; reflexivity].
+    destruct (IH c Hc) as [[H1 H2]|H]; [left; split; [exact H1|constructor; [lia|exact H2]]|right; exact H].
+Qed.
+
+Lemma const_sample_dur_nonzero l d :
+  Forall (fun s => 0 <= c_csd s < two32) l ->
+  const_sample_dur l = Some d -> d <> 0 ->
+  l <> [] /\ Forall (fun s => c_csd s = d) l.
+Proof.
+  intros Hr H Hd. destruct l as [|s l]; [cbn in H; discriminate|]. split; [discriminate|].
+  unfold const_sample_dur in H. cbn [csd_fold] in H. change (-1 <? 0) with true in H. cbv iota in H.
+  inversion Hr as [|? ? Hs Hl]; subst.
+  destruct (csd_fold_cases l (c_csd s) ltac:(lia)) as [[H1 H2]|H0].
+  - rewrite H1 in H. destruct (c_csd s >=? 0) eqn:E; [|lia].
+    rewrite c15_u32_small in H by exact Hs. inversion H; subst d. constructor; [reflexivity|exact H2].
+  - rewrite H0 in H. cbn in H. inversion H. congruence.
+Qed.
+
+Lemma const_sample_dur_all l d :
+  l <> [] -> 0 < d < two32 -> Forall (fun s => c_csd s = d) l -> const_sample_dur l = Some d.
+Proof.
+  intros Hne Hd Hall. destruct l as [|s l]; [congruence|]. inversion Hall as [|? ? Hs Hl]; subst.
+  unfold const_sample_dur. cbn [csd_fold]. change (-1 <? 0) with true. cbv iota.
+  rewrite (proj2 (csd_fold_all l (c_csd s) ltac:(lia)) Hl).
+  destruct (c_csd s >=? 0) eqn:E; [|lia]. f_equal. apply c15_u32_small. lia.
+Qed.
